@@ -264,6 +264,12 @@ class ExprMixin:
                 parts = [p for p in (n.slice.lower, n.slice.upper, n.slice.step)]
                 def go(i, acc, s1):
                     if i == 3:
+                        if isinstance(base, tuple) and base and base[0] in ("tuple", "list") and all(
+                                x == NONE or (is_const(x) and isinstance(x[1], int)) for x in acc):
+                            # a slice of a display whose elements are known: the display of the selected elements
+                            lo, hi, stp = [None if x == NONE else x[1] for x in acc]
+                            yield "ok", (base[0], tuple(base[1][slice(lo, hi, stp)])), s1
+                            return
                         yield "ok", ("slice", base, acc[0], acc[1], acc[2]), s1
                         return
                     if parts[i] is None:
@@ -390,9 +396,19 @@ class ExprMixin:
                 continue
             parts = []
             for i, op in enumerate(n.ops):
+                if isinstance(op, (ast.In, ast.NotIn)) and isinstance(ts[i + 1], tuple) and ts[i + 1][:1] == ("regtop",) \
+                        and ts[i] == ("attr", SELF, "addr"):
+                    # every registry has an entry for the address of every protocol built (buildProtocol; C19 I-BUILD-ALL,
+                    # nothing removes one): the test is a keyed access that always finds the address
+                    self.emit(s, fx, "REGADDR", n, reg=ts[i + 1][1], key=ts[i], base_node=n.comparators[i], how="in")
+                    parts.append(const(isinstance(op, ast.In)))
+                    continue
                 if isinstance(op, (ast.In, ast.NotIn)):
                     self.emit(s, fx, "MEMBER", n, item=ts[i], container=ts[i + 1])
                 parts.append(self.cmp_term(CMP[type(op)], ts[i], ts[i + 1]))
+            if len(parts) > 1 and all(is_const(x) for x in parts):
+                yield "ok", const(all(x[1] for x in parts)), s
+                continue
             yield "ok", (parts[0] if len(parts) == 1 else ("boolop", "And", tuple(parts))), s
 
     def cmp_term(self, op, a, b):
